@@ -15,7 +15,10 @@ import (
 	"errors"
 	"fmt"
 	"math/rand/v2"
+	"net/http"
 	"strings"
+	"sync"
+	"time"
 
 	"cuelabs.dev/go/oci/ociregistry"
 	"cuelabs.dev/go/oci/ociregistry/ocidebug"
@@ -588,6 +591,94 @@ func (r *breakingReader) Read(p []byte) (int, error) {
 	return n, err
 }
 
+// slowPatch delays PATCH requests a little, so that other calls on the same writer fall into the round trip.
+type slowPatch struct{ inner http.RoundTripper }
+
+func (t slowPatch) RoundTrip(req *http.Request) (*http.Response, error) {
+	if req.Method == "PATCH" {
+		time.Sleep(300 * time.Microsecond)
+	}
+	return t.inner.RoundTrip(req)
+}
+
+// concurrentWritesOneWriter: several goroutines write records to ONE BlobWriter obtained through client and
+// server (a BlobWriter may be used like that: the in-memory registry's and the client's both lock). Used
+// directly, the registry appends every Write's bytes exactly once, whole, in some order. Through the HTTP
+// stack the backend must have received the same: every record once, intact, nothing else - whatever the
+// order. What the backend received is read off the recording layer under the server.
+func concurrentWritesOneWriter(run *evid.Run, idx int) {
+	mem := ocimem.New()
+	recd := rec.New(mem)
+	top, closeAll := stack.HTTP(recd.Interface(), stack.HTTPOpts{Wrap: func(rt http.RoundTripper) http.RoundTripper { return slowPatch{rt} }})
+	defer closeAll()
+	const G = 3
+	recSize := []int{3000, 5000, 9000, 700}[idx%4]
+	perG := 6 + idx%5
+	w, err := top.PushBlobChunked(context.Background(), "cw/r", 0)
+	if err != nil {
+		run.Inconclusive("concurrent-writes setup: " + err.Error())
+		return
+	}
+	var wg sync.WaitGroup
+	var mu sync.Mutex
+	var werrs []string
+	start := make(chan struct{})
+	for g := 0; g < G; g++ {
+		wg.Add(1)
+		go func() {
+			defer wg.Done()
+			<-start
+			for i := 0; i < perG; i++ {
+				p := bytes.Repeat([]byte{byte('a' + g)}, recSize)
+				copy(p, fmt.Sprintf("<g%d#%02d>", g, i))
+				copy(p[recSize-1:], "|")
+				if _, err := w.Write(p); err != nil {
+					mu.Lock()
+					werrs = append(werrs, err.Error())
+					mu.Unlock()
+					return
+				}
+			}
+		}()
+	}
+	close(start)
+	wg.Wait()
+	cerr := w.Close()
+	run.Eval(1)
+	run.Count("concurrent_writer_scenarios", 1)
+	run.Distinct(fmt.Sprintf("concurrent-writes-one-writer/record=%d", recSize))
+	var received []byte
+	for _, bw := range recd.Writers() {
+		received = append(received, bw.Written()...)
+	}
+	wit := map[string]any{"goroutines": G, "records_each": perG, "record_size": recSize, "write_errors": werrs, "close_error": fmt.Sprint(cerr), "backend_received_bytes": len(received)}
+	if len(werrs) > 0 || cerr != nil {
+		run.Violation("differs/success/concurrent-writes-one-writer", fmt.Sprintf("writes to one writer from %d goroutines succeed on the registry itself; through client and server: write errors %v, close error %v", G, werrs, cerr), wit)
+		return
+	}
+	seen := map[string]int{}
+	okAll := len(received) == G*perG*recSize
+	for off := 0; okAll && off+recSize <= len(received); off += recSize {
+		r := received[off : off+recSize]
+		var g, i int
+		if _, err := fmt.Sscanf(string(r[:8]), "<g%d#%02d>", &g, &i); err != nil || r[recSize-1] != '|' || !bytes.Equal(bytes.Trim(r[8:recSize-1], string(rune('a'+g))), nil) {
+			okAll = false
+			break
+		}
+		seen[fmt.Sprintf("%d.%d", g, i)]++
+	}
+	for g := 0; okAll && g < G; g++ {
+		for i := 0; i < perG; i++ {
+			if seen[fmt.Sprintf("%d.%d", g, i)] != 1 {
+				okAll = false
+			}
+		}
+	}
+	if !okAll {
+		run.Violation("differs/content/concurrent-writes-one-writer", fmt.Sprintf("%d goroutines wrote %d records of %d bytes each to one writer and every Write reported success; the backend received %d bytes (expected %d) that are not those records, each once and whole", G, perG, recSize, len(received), G*perG*recSize), wit)
+	}
+}
+
 func main() {
 	run := evid.Start("C03", "exploration")
 	run.SetRule("a case is one history of Interface calls (pushes incl. composite chunked uploads with resume, mounts, manifests incl. 127/128/128+1 KiB ones, deletes, reads, ranges, listings with start points) executed on twin registries: ocimem directly and ociclient→ociserver(→second hop)→recording ocimem, under one of the 16 server option sets × {1,2} hops × ocidebug placement × {in-process transport, loopback}; names and tags are drawn from routing words (blobs, manifests, uploads, tags/list, referrers, v2). " +
@@ -716,6 +807,10 @@ func main() {
 	}
 	run.FloorCounter("midway_failures", 100)
 	run.FloorCounter("huge_manifest_pushes", 10)
+	for i, n := 0, run.N(40, 800); i < n; i++ {
+		concurrentWritesOneWriter(run, i)
+	}
+	run.FloorCounter("concurrent_writer_scenarios", 40)
 	run.FloorCounter("large_listings", 8)
 	run.FloorCounter("backend_calls", 5000)
 	run.FloorCounter("errors_relayed", 500)
